@@ -43,6 +43,9 @@ class OptInterp:
         self.field_labels = {}    # "field:<adt>.<name>" -> label for every read of that field
         self._ctl = frozenset()   # labels of the values the current path has branched on
         self.prog = None          # Program: lets a closure value carry the labels of what its body reads
+        self.field_values = {}    # "field:<adt>.<name>" -> abstract value of every read of that field (T/F/S/N)
+        self.probes = {}          # call instruction id -> argument index whose abstract value is recorded per path
+        self._probe = {}
         self.enum_preds = {}      # callee -> set of variant indices for which the predicate (on its first argument) is true
         self.fork_unknown = False  # explore both cases of an Option of unknown presence at unwrap_or / map_or / or
 
@@ -51,6 +54,11 @@ class OptInterp:
             k = pkey(op.place)
             if k in env:
                 return env[k]
+            if self.field_values:
+                for (adt, v, n, i) in op.place.fields():
+                    fv = self.field_values.get("field:%s.%s" % (adt, n)) if adt and n is not None else None
+                    if fv is not None:
+                        return fv
             # reference to a tracked place
             return env.get(("ref", k), "?")
         if op.const is not None:
@@ -329,6 +337,9 @@ class OptInterp:
             if k == "call":
                 if ins.id in self.watch:
                     self._passed = self._passed + [ins.id]
+                if ins.id in self.probes:
+                    self._probe = dict(self._probe)
+                    self._probe[ins.id] = self.val(env, ins.args[self.probes[ins.id]])
                 if self.fork_unknown and (ins.callee or "").startswith(OPT + "::") and ins.args and ins.args[0].place is not None \
                         and (ins.callee or "").split("::")[-1] in ("unwrap_or", "unwrap_or_else", "unwrap_or_default", "map_or", "map_or_else", "or", "or_else") \
                         and self.val(env, ins.args[0]) == "?":
@@ -357,7 +368,7 @@ class OptInterp:
             if k == "return":
                 self.results.append(env.get((0, ()), "?"))
                 self.paths.append(list(self._passed))
-                self.records.append({"reads": dict(self._reads), "calls": list(self._calls), "ret": env.get((0, ()), "?"), "ctl_src": set(self._ctl),
+                self.records.append({"reads": dict(self._reads), "calls": list(self._calls), "ret": env.get((0, ()), "?"), "ctl_src": set(self._ctl), "probe": dict(self._probe),
                                      "ret_src": set(env.get("__src__", {}).get((0, ()), frozenset()))})
                 return
             if k == "switch":
@@ -369,6 +380,7 @@ class OptInterp:
                 if o.place is not None:
                     self._ctl = self._ctl | self.srcs(env, o)
                 saved_ctl = self._ctl
+                saved_probe = dict(self._probe)
                 dv = self.val(env, o) if o.place is not None else "?"
                 if isinstance(dv, tuple) and dv[0] == "D":
                     t = tmap.get(dv[1], ins.otherwise)
@@ -400,6 +412,7 @@ class OptInterp:
                             e2[src] = want
                             self._passed = list(saved)
                             self._reads, self._calls, self._ctl = dict(saved_reads), list(saved_calls), saved_ctl
+                            self._probe = dict(saved_probe)
                             self.explore(t, 0, e2, discr_of)
                         return
                 bv = self.val(env, o) if o.place is not None else "?"
@@ -408,6 +421,7 @@ class OptInterp:
                     if not dead(t):
                         self._passed = list(saved)
                         self._reads, self._calls, self._ctl = dict(saved_reads), list(saved_calls), saved_ctl
+                        self._probe = dict(saved_probe)
                         self.explore(t, 0, dict(env), discr_of)
                     return
                 ts = [b for _, b in ins.targets] + [ins.otherwise]
@@ -423,6 +437,7 @@ class OptInterp:
                         pass
                     self._passed = list(saved)
                     self._reads, self._calls, self._ctl = dict(saved_reads), list(saved_calls), saved_ctl
+                    self._probe = dict(saved_probe)
                     self.explore(t, 0, e2, discr_of)
                 return
             if k == "unreachable":
